@@ -122,7 +122,7 @@ WellTypedPrim(kt, x) ==
                  K(x) = "int" /\ x.int >= ErrorCodeMin /\ x.int <= ErrorCodeMax)
     [] kt = "datetime_i64" -> K(x) \in {"int", "bits"} /\ FitsS(ValBits(x), 64) /\ Sign(ValBits(x)) = 0
     [] kt = "bool" -> K(x) = "int" /\ x.int \in {0, 1}
-    [] kt = "float64" -> K(x) = "f64" /\ F64IsFinite(x)
+    [] kt = "float64" -> K(x) = "f64"        \* any bit pattern is a wire value; kio's f64 TYPE admits finite ones only
     [] kt = "uuid" -> K(x) = "blob" /\ Len(x.blob) = 16 /\ x.blob # ZeroUuid
     [] kt = "string" -> K(x) = "blob" /\ ValidUtf8(x.blob)
     [] kt \in {"bytes", "records"} -> K(x) = "blob"
